@@ -210,7 +210,12 @@ def check(prop, tier, repo=None, quiet=False, evidence=True, scratch=None):
                     print("    at %s" % f.span)
                 print("VIOLATION property=%s replay=%s" % (prop, vp))
         if evidence:
-            write_evidence(prop, tier, findings, known_hits, violations, stats, time.time() - t0)
+            reloc = {}
+            for c in ctxs.values():
+                reloc.update(getattr(c.fx, "relocated", {}) or {})
+            write_evidence(prop, tier, findings, known_hits, violations, stats, time.time() - t0,
+                           extra={"analysed": {"configurations": sorted(ctxs), "functions_in_fact_base": {c: len(ctxs[c].fx.fn_list) for c in ctxs},
+                                               "items_identified_by_reference_path_after_a_module_move": reloc}})
         if not quiet:
             tot = sum(max(st["instances"].values()) if st["instances"] else 0 for st in stats.values())
             print("%s %s: %d rule instances over %d rules, %d known finding(s), %d violation(s), %.1fs"
